@@ -54,6 +54,10 @@ def truncated_files(chk, tier):
             p.write_bytes(data[:c])
             jobs.append((f, c, p))
     dumps, crashes = reader_dumps(work, list(files) + [p for _, _, p in jobs], label="c05rd")
+    # the same inputs with the reader handed on (move construction) after 0..3 blocks: same blocks, same end
+    mvsel = [p for k, (f, c, p) in enumerate(jobs) if k % 3 == 0 or c >= f.stat().st_size - 2]       # a third of the cuts, and all near the end
+    dumps_mv, crashes_mv = reader_dumps(work, mvsel, mode="dumpmv", label="c05mv")
+    crashes += crashes_mv
     nsh = vlib.NCPU
     traces = [work / f"c05f.{i}.ndjson" for i in range(nsh)]
     hs = [open(t, "w") for t in traces]
@@ -63,6 +67,8 @@ def truncated_files(chk, tier):
         big = f.stat().st_size > 60000
         ev = {"e": "P", "cut": c, "orig": segs(f.read_bytes()), "rd_orig": dumps[f.name]["rd"], "rd_cut": dumps[p.name]["rd"]}
         hs[k % nsh].write(json.dumps(ev) + "\n")
+        if p.name in dumps_mv:
+            hs[(k + 1) % nsh].write(json.dumps(dict(ev, rd_cut=dumps_mv[p.name]["rd"])) + "\n")
     for h in hs:
         h.write('{"e":"END"}\n')
         h.close()
